@@ -24,8 +24,9 @@ for d in sorted(glob.glob(os.path.join(VERIF, "seeded", "*", ""))):
     rows.append("| %s | %s | %s | %s | %s |" % (m["id"], text, "yes" if c.get("caught") else "**NO**", orc, hist.replace("|", "/")[:260]))
 head = """Round 1 (ids -a, -b): two changes per property, "needs something specific to manifest". Round 2 (ids -c, -d): the agents
 were additionally given the one-line summaries of the earlier ideas for their property and asked for *history- or
-configuration-dependent* changes. Rounds 3-5 (ids -e ... -j): same, with all earlier ideas listed; round 5 asked for one
-input-triggered and one usage-triggered change per property. No agent ever saw anything from `/verif`. %d changes in total; all are
+configuration-dependent* changes. Rounds 3-7 (ids -e ... -n): same, with all earlier ideas listed; rounds 5-7 asked for one
+input-triggered and one usage-triggered change per property; round 8 (ids -o) asked for one change per property of either kind.
+Two agents of round 7 delivered only one change (C16-n, C19-n do not exist) rather than a weak second one. No agent ever saw anything from `/verif`. %d changes in total; all are
 caught by the quick tier of the responsible check now.
 %d of them were **missed by the version of the check that existed when the change arrived** or caught by it only by luck (%s).
 Every miss was a gap of the *generator / workload* (the oracle was right as soon as the situation was produced), of an oracle
